@@ -505,6 +505,22 @@ func c39Extra(r *Run) error {
 		}
 		r.table("C39/file-system-sinks["+ext+"]", len(bad) == 0, "every file-system call of the assets package is one of the sinks carrying the confinement assertion", fmt.Sprintf("%d call sites into %s; not allowed: %v", len(sites), ext, bad))
 	}
+	// the cache invariant is carried by cacheAsset's precondition: it must be checked at every call
+	if v := r.globalVar(ap, "AssetCache"); v != nil {
+		r.initOK = true
+		r.writersUnderContract("C39/asset-cache-var-writers", v)
+		r.initOK = false
+		if mt, _ := v.Type().Underlying().(*types.Map); mt != nil {
+			r.mapWritersUnderContract("C39/asset-cache-map-writers", mt)
+		}
+	} else {
+		r.table("C39/asset-cache-var-writers", false, "variable AssetCache not found", "")
+	}
+	r.census("C39/cache-fill-census", ap+".cacheAsset", 0, "", ap+".Loader")
+	r.census("C39/cache-lookup-census", ap+".lookupCachedAsset", 0, "", ap+".Loader")
+	r.census("C39/path-resolution-census", ap+".normalizeAssetPath", 0, "", ap+".readAssetFile", ap+".readAssetRange")
+	r.boundedGoTest("C39-battery", "requests through the real handler against a built tree: a path that resolves outside the root gets an error status and no outside byte; a plain request returns the file's bytes, cold or warm, in every order of two differently named assets; a byte range a-b / a- returns 206 with exactly those bytes, the matching Content-Range and Content-Length, or an error status when it selects nothing; HEAD as GET without the body",
+		"10 assets (0..300 bytes), 6 files outside the root, 55 escaping spellings x 4 Range headers x GET/HEAD x cold/warm; every pair of assets; range ends at 0,1,2,n/2,n-2..n+1,n+7 and open-ended (thorough: every pair of ends for assets up to 40 bytes)")
 	return nil
 }
 
